@@ -23,6 +23,7 @@ class ContractMixin:
     # ------------------------------------------------------------------ obligations
     def obligation(self, name, kind, tag, goal, node=None, exact=None):
         goal = self.bterm(goal) if isinstance(goal, bool) else goal
+        goal = self.skolemize(goal)
         if z3.is_and(goal) and goal.num_args() > 1 and kind in ('inv', 'post', 'lemma'):
             # one obligation per conjunct: smaller queries, more precise reports
             obs = [self.obligation(f'{name}#{i}', kind, tag, c, node, exact) for i, c in enumerate(goal.children())]
@@ -34,6 +35,19 @@ class ContractMixin:
                         where=f'line {getattr(node, "lineno", "?")}')
         self.obligations.append(ob)
         return ob
+
+    def skolemize(self, goal):
+        """a universally quantified goal is proved for fresh constants (so that definitional instances of
+        the spec functions applied to them can be generated); only positive top-level positions"""
+        if z3.is_quantifier(goal) and goal.is_forall():
+            cs = [z3.Const(self.ex.fresh_name(goal.var_name(i) + '!sk'), goal.var_sort(i))
+                  for i in range(goal.num_vars())]
+            return self.skolemize(z3.substitute_vars(goal.body(), *reversed(cs)))
+        if z3.is_implies(goal):
+            return z3.Implies(goal.arg(0), self.skolemize(goal.arg(1)))
+        if z3.is_and(goal):
+            return z3.And(*[self.skolemize(c) for c in goal.children()])
+        return goal
 
     def auto_unfold(self, goal, limit=6):
         """definitional instances  f(args) == body[args]  for the spec-function applications that occur
@@ -202,8 +216,13 @@ class ContractMixin:
     def declare_spec(self, sp: SpecFn):
         if sp.z3fun is None:
             params, tys, rty = self.spec_sig(sp)
-            sp.z3fun = z3.RecFunction(sp.name, *[t.z3sort() for t in tys], rty.z3sort())
-            recfuns.declare(sp.z3fun)
+            if sp.opaque:
+                # no definition at all: an uninterpreted symbol (never a RecFunction without a body)
+                sp.z3fun = z3.Function(sp.name, *[t.z3sort() for t in tys], rty.z3sort())
+                self.uninterpreted.add(f'spec {sp.name} (opaque)')
+            else:
+                sp.z3fun = z3.RecFunction(sp.name, *[t.z3sort() for t in tys], rty.z3sort())
+                recfuns.declare(sp.z3fun)
         return sp.z3fun
 
     def define_spec(self, sp: SpecFn):
